@@ -73,6 +73,7 @@ type VEnd struct {
 	blocked  bool
 	closed   bool
 	done     bool
+	parked   bool  // waiting for the harness (counts as blocked)
 	Sizes    []int // size of every datagram handed to the network
 }
 
@@ -179,6 +180,20 @@ func (n *VNet) Done(i int) {
 	n.mu.Unlock()
 }
 
+// Park marks endpoint i as waiting for something outside the network (a harness channel) while
+// f runs; for the controller a parked endpoint is as good as blocked.
+func (n *VNet) Park(i int, f func()) {
+	n.mu.Lock()
+	n.eps[i].parked = true
+	n.cond.Broadcast()
+	n.mu.Unlock()
+	f()
+	n.mu.Lock()
+	n.eps[i].parked = false
+	n.cond.Broadcast()
+	n.mu.Unlock()
+}
+
 // Deliver puts a datagram straight into endpoint to's inbox (forgery / scripted delivery).
 func (n *VNet) Deliver(to int, data []byte) {
 	n.mu.Lock()
@@ -218,7 +233,7 @@ func (n *VNet) NewTimerParts(d time.Duration) (c <-chan time.Time, stop func() b
 
 func (n *VNet) quiescent() bool {
 	for _, e := range n.eps {
-		if e.done || e.closed {
+		if e.done || e.closed || e.parked {
 			continue
 		}
 		if !e.blocked || len(e.inbox) > 0 {
